@@ -11,7 +11,8 @@ LEVEL = "exploration"
 RULE = ("Hypothesis expression trees up to depth 6 over all 12 infix and 3+1 prefix operators (~ also spelled ^C), rendered with the "
         "minimum grouping C precedence and left associativity require (plus drawn redundant grouping in ( ), < > or ^x..x style) and "
         "drawn literal spellings; leaves: constants (small, 16-bit and 32-bit boundaries, negative), symbols defined before or after "
-        "use (also chains), labels and '.', 'c \"cc and ^R literals; contexts .dword / .word / immediate / index; planted /0, %0, "
+        "use (also chains), labels and '.', 'c \"cc and ^R literals; contexts .dword / .word / immediate / index, two programs in five as the body of a .repeat 2 / 3 whose copies "
+        "each evaluate at their own '.'; planted /0, %0, "
         "negative shift counts and 8/9 digit strings must be refused, |v| >= 2^32 must be refused. Plus every ordered pair of infix "
         "operators adjacent without brackets over a fixed operand set (exhaustive). Non-trivial: depth >= 2 with >= 2 distinct "
         "operators, or an error-class case; distinct = distinct rendered expression.")
@@ -131,8 +132,10 @@ def program(draw):
     ints = draw(st.lists(st.integers(0, 255), min_size=1, max_size=40))
     rules = draw(st.sets(st.sampled_from(["radix", "case-radix", "case-hexdigit", "grouping", "redundant-group", "or-bang", "inv-caret",
                                            "blanks", "case-symbol", "case-directive"]), max_size=6))
+    # the statements may form the body of a .repeat: every copy evaluates the same text at its own '.'
+    nrep = draw(st.sampled_from([1, 1, 1, 2, 3]))
     return {"kind": "c05", "items": items, "consts": consts, "where": where, "chain": chain, "base": base, "ints": ints,
-            "rules": sorted(rules)}
+            "rules": sorted(rules), "rep": nrep}
 
 
 class Env(X.Env):
@@ -176,6 +179,9 @@ def build(case):
     for ctx, e, _ in case["items"]:
         addrs.append(addr)
         addr += sizes[ctx]
+    nrep = case.get("rep", 1)
+    span = addr - B
+    addr = B + nrep * span
     syms = dict(consts)
     syms["lab0"] = B
     syms["lab1"] = addr
@@ -185,6 +191,11 @@ def build(case):
     errors = set()
     info = []
     body.append({"k": "label", "name": "lab0"})
+    inner = body
+    if nrep > 1:
+        inner = []
+        body.append({"k": "repeat", "e": ("num", nrep), "body": inner})
+    later = []      # (ctx, final expression, address in the first copy): evaluated again for the other copies
     for (ctx, e, wrapsel), a in zip(case["items"], addrs):
         e = tup(e)
         env = Env(syms, a)
@@ -203,23 +214,38 @@ def build(case):
             kind = "value-out-of-bounds"
         if kind:
             errors.add(kind)
+        later.append((ctx, e, a, limit))
         if ctx == "dword":
-            body.append({"k": "data", "d": "dword", "es": [e]})
+            inner.append({"k": "data", "d": "dword", "es": [e]})
             if v is not None:
                 image += struct.pack("<HH", (v >> 16) & 0xFFFF, v & 0xFFFF)
         elif ctx == "word":
-            body.append({"k": "data", "d": "word", "es": [e]})
+            inner.append({"k": "data", "d": "word", "es": [e]})
             if v is not None:
                 image += struct.pack("<H", v & 0xFFFF)
         elif ctx == "imm":
-            body.append({"k": "insn", "mn": "mov", "ops": [("imm", e), ("reg", 1)]})
+            inner.append({"k": "insn", "mn": "mov", "ops": [("imm", e), ("reg", 1)]})
             if v is not None:
                 image += struct.pack("<HH", 0o012701, v & 0xFFFF)
         else:
-            body.append({"k": "insn", "mn": "clr", "ops": [("idx", 2, e)]})
+            inner.append({"k": "insn", "mn": "clr", "ops": [("idx", 2, e)]})
             if v is not None:
                 image += struct.pack("<HH", 0o005062, v & 0xFFFF)
         info.append((ctx, e, v, kind))
+    for copy in range(1, nrep):
+        for ctx, e, a, limit in later:
+            try:
+                v = X.ev_int(e, Env(syms, a + copy * span))
+            except X.EvalError as ex:
+                errors.add(ex.kind)
+                v = None
+            if v is not None and abs(v) >= limit:
+                errors.add("value-out-of-bounds")
+                v = None
+            if v is not None:
+                image += {"dword": struct.pack("<HH", (v >> 16) & 0xFFFF, v & 0xFFFF), "word": struct.pack("<H", v & 0xFFFF),
+                          "imm": struct.pack("<HH", 0o012701, v & 0xFFFF), "index": struct.pack("<HH", 0o005062, v & 0xFFFF)}[ctx]
+            info.append((ctx, e, v, None))
     body.append({"k": "label", "name": "lab1"})
     text, _ = render.render_file(pre + body + post, style)
     return text, (None if errors else image), errors, info, sorted(style.used)
@@ -337,6 +363,7 @@ def run_shard(spec, ctx):
             ctx.case(key, nt, labels, sample={"expr": key, "value": v, "error": kind} if ctx.evaluations % 41 == 7 else None)
         for r in used:
             ctx.classes["style:" + r] += 1
+        ctx.classes[f"repeat-copies-{case.get('rep', 1)}"] += 1
         res = judge(case, built)
         if res:
             return (res[0][0], res[0][1], case)
